@@ -108,6 +108,13 @@ def main(argv: list) -> int:
     benign = [r for r in allr if r.get("expect") == "clean"]
     doc = {"results": allr, "detected": sum(1 for r in breaking if r.get("detected")), "total": len(breaking),
            "benign_total": len(benign), "benign_clean": sum(1 for r in benign if r.get("all_clean"))}
+    try:  # keep the per-seed history block of earlier complete batteries, if any
+        prev = json.loads(path.read_text())
+        if "by_seed" in prev:
+            doc["by_seed"] = prev["by_seed"]
+            doc["note"] = prev.get("note", "")
+    except Exception:
+        pass
     path.write_text(json.dumps(doc, indent=1, sort_keys=True))
     print("sensitivity: recorded overall %d of %d breaking changes detected; %d of %d property-preserving changes clean (tier of this run: %s)" %
           (doc["detected"], doc["total"], doc["benign_clean"], doc["benign_total"], tier))
